@@ -244,6 +244,20 @@ def fold_colliding(x, p, rng, n=6):
     return [y for y in out if 0 <= y < p and y != x]
 
 
+def ladder_special_scalars(r, rng, n):
+    """Scalars whose binary PREFIXES (= the accumulator of a left-to-right ladder, the quotient n >> j of a right-to-left or
+    recursive one, the top windows of a windowed one) are 0, +-1, +-2 modulo the group order r, or (r +- 1)/2: in the
+    middle of the multiplication the accumulator is then the identity, +-P or +-2P, and the next addition is one of the
+    special cases of the group law (P + P, P + (-P), P + O) instead of the generic one."""
+    heads = [r, r + 1, r - 1, r + 2, r - 2, 2 * r, 2 * r + 1, 2 * r - 1, (r + 1) // 2, (r - 1) // 2, 3 * r, (r + 1) // 2 + r]
+    out = []
+    for _ in range(n):
+        h = heads[rng.randrange(len(heads))]
+        j = rng.choice([1, 2, 3, 4, 5, 8, 16, 63, 64, 65])
+        out.append((h << j) | rng.getrandbits(j))
+    return out
+
+
 def endo_scalars(n):
     """Scalars algebraically tied to the j = 0 endomorphism (x, y) -> (beta x, y) of a group of prime order n = 1 mod 3:
     its eigenvalues lam (the two primitive cube roots of unity mod n) and their neighbours / small combinations.  k*P for
